@@ -176,3 +176,22 @@ Theorem c17_channel_scan_exact : forall chs,
   scan chs = (existsb fst chs, existsb (fun c => Nat.ltb 0 (snd c)) chs).
 Proof. exact scan_spec. Qed.
 Print Assumptions c17_channel_scan_exact.
+
+(* A subscriber can always park the connection of a departed publisher that still has a borrowed Sample:
+   for every configured expired-connection buffer and every max-borrowed-samples limit, as long as the
+   borrows respect that limit, prepare_connection_removal never reaches its fatal_panic ("Expired
+   connection buffer exceeded ... still borrowed").  Needs the capacity max(buffer, max borrowed samples)
+   that Subscriber::new computes AND passes to the list (two rows of own_decisions); with the raw config
+   value as capacity it is false (buffer 1, limit 2: second example below, harness family ps2). *)
+Theorem c17_borrowed_connection_can_always_be_parked : forall (buffer maxb : nat) (l : list econn) (c : econn),
+  0 < snd c -> list_sum (map snd l) + snd c <= maxb -> park (expired_capacity buffer maxb) l c <> ParkFatalPanic.
+Proof. exact park_never_fatal. Qed.
+Check c17_borrowed_connection_can_always_be_parked : forall (buffer maxb : nat) (l : list econn) (c : econn),
+  0 < snd c -> list_sum (map snd l) + snd c <= maxb -> park (expired_capacity buffer maxb) l c <> ParkFatalPanic.
+Print Assumptions c17_borrowed_connection_can_always_be_parked.
+Example c17_borrowed_connection_can_always_be_parked_nonvacuous :
+  expired_capacity 1 2 = 2 /\ park (expired_capacity 1 2) [(false, 1)] (false, 1) = Parked /\
+  park 1 [(false, 1)] (false, 1) = ParkFatalPanic /\
+  park (expired_capacity 1 2) [(true, 0); (false, 1)] (false, 1) = ParkedDiscardingData.
+Proof. vm_compute. repeat split; reflexivity. Qed.
+Print Assumptions c17_borrowed_connection_can_always_be_parked_nonvacuous.
